@@ -80,6 +80,30 @@ CHECKS += [
          technique="lifted execution of the real GF(2) code on z3 Booleans with solver-pruned path forking; per-path Boolean validity queries"),
 ]
 
+E5 = "E5 symbit + z3"
+E5_NOTE = ("Trusted base: z3, the vf.symbit lifting (the real Python code runs on z3-backed integers/bits; every data-dependent branch forks "
+           "through the solver; every sat model is replayed concretely on the real code before it is reported). ")
+CHECKS += [
+    dict(property_id="C22", category="proof", engine=E5,
+         text="Inductive step: from an ARBITRARY valid state of the real _WireManager (registers and loan table of 0..2 symbolic integer labels, "
+              "pairwise distinct, min_int None or above all labels, all flags free) one real get_wire / return_wire keeps labels distinct and "
+              "conserved, hands out only free wires, serves |0> requests only from zeroed/fresh wires or reset any-state wires, books a loan as "
+              "ZERO only if the wire held |0> and restoration was promised, and raises AllocationError exactly when nothing can be provided - "
+              "proved by z3 on every feasible path, so it covers allocation histories of any length. Plus bounded histories (<=4 opcodes + gate; "
+              "thorough <=6) through the real resolve_dynamic_wires with symbolic register labels / static label / min_int against an independent "
+              "lifetime model (no aliasing of live wires, never on the static wire, |0> when requested).",
+         note=E5_NOTE + "Stub: measure(w, reset=True) replaced by a marker op. restored=True is honoured as the user's promise. Outside: device preprocessing (device_resolve_dynamic_wires), equality of simulation results with fresh wires.",
+         technique="lifted execution of the real wire manager/transform on z3 integers; inductive-step and bounded-history validity queries"),
+    dict(property_id="C47", category="proof", engine=E5,
+         text="The real estimator runs on SYMBOLIC repetition counts and budgets: estimate(Resources{A: n, B: m}) gate counts are proved equal to "
+              "n*counts(A)+m*counts(B) for all n,m>=0 over pairs from 10 (thorough 20) estimator operators incl. Adjoint/Controlled/Pow and "
+              "allocating templates; n*A and (A add_series A).multiply_series(n); Pow(A,z) and Pow(Pow(A,z0),z) with symbolic exponents 1..9 for "
+              "bases using the default power rule; wire accounting any_final = any0 + n*net(A) + m*net(B), no negative counters. Inductive "
+              "step on WireResourceManager.grab_zeroed/free_wires from arbitrary non-negative state (exact conservation / shortfall / errors).",
+         note=E5_NOTE + "Oracle for counts(A): estimate(A) alone. Outside: non-default gate sets, custom decompositions, qfunc workflows, operators with their own power rule.",
+         technique="lifted execution of the real estimator on z3 integers (symbolic counts, exponents, budgets); linear/nonlinear integer validity queries"),
+]
+
 _NOT_BUILT = "claimed in DESIGN.md §4 but its solver-based check is not built yet in this tree"
 NOT_APPLICABLE_REASONS = {
     "C04": "equality/hash: Python hash() of concrete payloads and tolerance-based allclose relations; no exact relation a solver can decide",
